@@ -42,25 +42,43 @@ CAL_MAX_STEPS = {           # {tier: {method: steps}}
 CAL_MAX_INFERS = {'quick': 2252, 'thorough': 2252}
 # maximum work of one query at the largest n (64; rings: 40) observed per scaling family
 CAL_STEPS64 = {
-    'assign_chain': 40513, 'assign_diamonds': 47289, 'attr_diamonds': 65951, 'call_chain': 4344,
-    'call_tree': 45831, 'chain_A': 111567, 'chain_C': 59816, 'chain_D': 70362, 'chain_G': 108938,
-    'chain_H': 498511, 'chain_I': 101975, 'chain_L': 128694, 'chain_P': 149565,
-    'chain_T': 161849, 'chain_X': 136200, 'decorator_chain': 41303, 'diamonds': 417152,
-    'import_chain': 43996, 'inherit_chain': 74685, 'instance_tree': 111266,
-    'nested_closures': 5004, 'nested_containers': 45993, 'ring_A': 28626, 'ring_C': 49525,
-    'ring_D': 50971, 'ring_G': 28131, 'ring_H': 315320, 'ring_I': 24903, 'ring_L': 118416,
-    'ring_P': 89848, 'ring_T': 92022, 'ring_X': 84310}
+    'assign_chain': 40620, 'assign_diamonds': 47394, 'attr_diamonds': 66075,
+    'builtin_call_chain': 51615, 'builtin_op_chain': 49957, 'call_chain': 4449,
+    'call_tree': 47727, 'chain_A': 111570, 'chain_C': 61028, 'chain_D': 70801, 'chain_G': 109389,
+    'chain_H': 498514, 'chain_I': 101970, 'chain_L': 129917, 'chain_P': 150204,
+    'chain_T': 162489, 'chain_X': 136833, 'decorator_chain': 41570, 'diamonds': 417172,
+    'import_chain': 44103, 'inherit_chain': 74709, 'instance_tree': 112081,
+    'method_chain_builtin': 87808, 'nested_closures': 5014, 'nested_containers': 46100,
+    'ring_A': 28630, 'ring_C': 50742, 'ring_D': 51237, 'ring_G': 28409, 'ring_H': 315515,
+    'ring_I': 24903, 'ring_L': 119629, 'ring_P': 90249, 'ring_T': 92421, 'ring_X': 84677}
 # maximum work of one query over all n observed per scaling family (hard-stop budget of (b))
 CAL_STEPS_FAM = {
-    'assign_chain': 40513, 'assign_diamonds': 47289, 'attr_diamonds': 65951, 'call_chain': 35560,
-    'call_tree': 86990, 'chain_A': 111567, 'chain_C': 59816, 'chain_D': 70362, 'chain_G': 108938,
-    'chain_H': 498511, 'chain_I': 101975, 'chain_L': 128694, 'chain_P': 149565,
-    'chain_T': 161849, 'chain_X': 136200, 'decorator_chain': 41323, 'diamonds': 417152,
-    'import_chain': 43996, 'inherit_chain': 74685, 'instance_tree': 364528,
-    'nested_closures': 36685, 'nested_containers': 45993, 'ring_A': 28626, 'ring_C': 49525,
-    'ring_D': 50971, 'ring_G': 28131, 'ring_H': 315320, 'ring_I': 24903, 'ring_L': 118416,
-    'ring_P': 89848, 'ring_T': 92022, 'ring_X': 84310}
+    'assign_chain': 40620, 'assign_diamonds': 47394, 'attr_diamonds': 66075,
+    'builtin_call_chain': 51617, 'builtin_op_chain': 49959, 'call_chain': 35716,
+    'call_tree': 87924, 'chain_A': 111570, 'chain_C': 61028, 'chain_D': 70801, 'chain_G': 109389,
+    'chain_H': 498514, 'chain_I': 101970, 'chain_L': 129917, 'chain_P': 150204,
+    'chain_T': 162489, 'chain_X': 136833, 'decorator_chain': 41570, 'diamonds': 417172,
+    'import_chain': 44103, 'inherit_chain': 74709, 'instance_tree': 365542,
+    'method_chain_builtin': 87808, 'nested_closures': 36855, 'nested_containers': 46100,
+    'ring_A': 28630, 'ring_C': 50742, 'ring_D': 51237, 'ring_G': 28409, 'ring_H': 315515,
+    'ring_I': 24903, 'ring_L': 119629, 'ring_P': 90249, 'ring_T': 92421, 'ring_X': 84677}
 FACTOR = 20
+# deepest python stack (frames above the query call, sampled at every 32nd counted entry) observed
+# per scaling family over all n; a stack that grows with n towards the interpreter limit (3000)
+# is "recursing instead of giving up" even while the step count stays small
+# (measured on /repo 4c200d4, scaling stage only: JV_C15_LEVELS=s JV_C15_CALIBRATE=1)
+CAL_DEPTH_FAM = {
+    'assign_chain': 1446, 'assign_diamonds': 1958, 'attr_diamonds': 2198,
+    'builtin_call_chain': 696, 'builtin_op_chain': 693, 'call_chain': 392, 'call_tree': 390,
+    'chain_A': 1603, 'chain_C': 390, 'chain_D': 560, 'chain_G': 1410, 'chain_H': 231,
+    'chain_I': 884, 'chain_L': 809, 'chain_P': 532, 'chain_T': 2979, 'chain_X': 499,
+    'decorator_chain': 274, 'diamonds': 339, 'import_chain': 948, 'inherit_chain': 270,
+    'instance_tree': 2198, 'method_chain_builtin': 987, 'nested_closures': 468,
+    'nested_containers': 269, 'ring_A': 1017, 'ring_C': 390, 'ring_D': 560, 'ring_G': 904,
+    'ring_H': 162, 'ring_I': 570, 'ring_L': 809, 'ring_P': 533, 'ring_T': 2064, 'ring_X': 497}
+DEPTH_SAMPLE_MASK = 31
+DEPTH_FACTOR = 1.5      # depth(family, n) <= DEPTH_FACTOR * calibrated + DEPTH_C
+DEPTH_C = 100
 GROWTH = 8              # steps(2n) <= GROWTH * steps(n) + GROWTH_C   for n >= 8
 GROWTH_C = 5000
 NS = [1, 2, 4, 8, 16, 32, 64]
@@ -94,6 +112,11 @@ def budget64(family):
     return FACTOR * CAL_STEPS64.get(family, max(CAL_STEPS64.values() or [50000]))
 
 
+def depth_budget(family):
+    cal = CAL_DEPTH_FAM.get(family)
+    return None if cal is None else int(DEPTH_FACTOR * cal + DEPTH_C)
+
+
 def budget_family(family):
     return FACTOR * CAL_STEPS_FAM.get(family, max(CAL_STEPS_FAM.values() or [50000]))
 
@@ -116,6 +139,7 @@ class _Counter:
     step = 0
     trips = 0
     warnings = None
+    maxdepth = 0          # deepest python stack seen at a sampled function entry
 
 
 _C = _Counter()
@@ -125,6 +149,15 @@ def _on_start(code, offset):
     if not code.co_filename.startswith(_C.prefix):
         return sys.monitoring.DISABLE
     _C.count += 1
+    if not _C.count & DEPTH_SAMPLE_MASK:
+        # every 32nd counted entry: length of the python stack (count based, not time based)
+        f = sys._getframe(1)
+        d = 0
+        while f is not None:
+            d += 1
+            f = f.f_back
+        if d > _C.maxdepth:
+            _C.maxdepth = d
     if _C.limit is not None and _C.count > _C.limit:
         # hard stop; should some handler swallow it, stop again a little later
         _C.limit += _C.step
@@ -282,6 +315,12 @@ def _one_query(jedi, env, project, code, path, method, line, col, limit):
     """One query on a fresh Script under the step counter.
     -> dict(steps, infers, n, fail=None|dict(site, tb, cls))"""
     script = jedi.Script(code, path=path, environment=env, project=project)
+    base = 0
+    f = sys._getframe()
+    while f is not None:
+        base += 1
+        f = f.f_back
+    _C.maxdepth = 0
     _C.count = 0
     _C.trips = 0
     _C.limit = limit
@@ -315,7 +354,8 @@ def _one_query(jedi, env, project, code, path, method, line, col, limit):
         infers = sum(script._inference_state.inferred_element_counts.values())
     except Exception:
         infers = -1
-    return {'steps': steps, 'infers': infers, 'n': n, 'fail': fail}
+    return {'steps': steps, 'infers': infers, 'n': n, 'fail': fail,
+            'depth': max(0, _C.maxdepth - base)}
 
 
 def _where(e):
@@ -350,6 +390,8 @@ def _work(task):
     npos = set()
     max_infers = 0
     table = {}
+    dtable = {}
+    max_depth = 0
     nonempty = 0
     total_steps = 0
     if _C.warnings is not None:
@@ -397,6 +439,8 @@ def _work(task):
                                                max(r['steps'], 1).bit_length()))
                 if task['kind'] == 'scale':
                     table[label] = r['steps']
+                    dtable[label] = r['depth']
+                max_depth = max(max_depth, r['depth'])
                 f = r['fail']
                 ib = infers_budget(task.get('tier'))
                 if f is None and ib and not calibrating and r['infers'] > ib:
@@ -426,7 +470,8 @@ def _work(task):
     files_out = files if (fails or only or not task.get('lean')) else None
     return {'fails': fails, 'nq': nq, 'npos': len(npos), 'per_method': per_method,
             'max_infers': max_infers, 'classes': sorted(classes), 'layout': layout,
-            'warnings': dict(_C.warnings or {}), 'table': table, 'nonempty': nonempty,
+            'warnings': dict(_C.warnings or {}), 'table': table, 'dtable': dtable,
+            'max_depth': max_depth, 'nonempty': nonempty,
             'aborted': aborted, 'counter_broken': counter_broken, 'files': files_out,
             'cpu': round(time.process_time() - cpu0, 3),
             'total_steps': sum(table.values()) if False else total_steps}
@@ -582,6 +627,7 @@ def run(ctx):
     nviol = 0
     stopped_early = False
     cpu = [0.0, 0]
+    obs_depth_a = [0]
 
     known = findings.load(ID)
     # maintenance aid: explore everything even after a violation (to list all failing inputs)
@@ -617,6 +663,8 @@ def run(ctx):
             if m not in obs_max or steps > obs_max[m][0]:
                 obs_max[m] = [steps, t['id'] + '|' + label]
         obs_max_infers = max(obs_max_infers, r['max_infers'])
+        if t['kind'] == 'graph':
+            obs_depth_a[0] = max(obs_depth_a[0], r.get('max_depth', 0))
         if r['counter_broken']:
             ctx.harness_error('step counter below inferred_element_counts on %s: %s'
                               % (t['id'], r['counter_broken']))
@@ -636,6 +684,9 @@ def run(ctx):
     tables = {}
     obs64 = {}
     obsfam = {}
+    obsdepth = {}
+    depth_series = {}
+    ndepth = 0
     nscale = 0
     if ctx.time_left() > 10 and (not only_levels or 's' in only_levels):
         cpu_before = list(cpu)
@@ -669,6 +720,20 @@ def run(ctx):
                                               max(r['table'].values()))
                 if t['n'] == ns_of(t['family'])[-1] and r['table']:
                     obs64[t['family']] = max(r['table'].values())
+                obsdepth[t['family']] = max(obsdepth.get(t['family'], 0), r['max_depth'])
+                depth_series.setdefault(t['family'], {})[str(t['n'])] = r['max_depth']
+                db = depth_budget(t['family'])
+                ndepth += 1
+                if db is not None and not calibrate and r['max_depth'] > db:
+                    deepest = max(r['dtable'].items(), key=lambda kv: kv[1])
+                    violation('stack-depth-over-budget@%s' % t['family'], t['id'] + '|depth',
+                              {'family': t['family'], 'n': t['n'], 'query': deepest[0],
+                               'python_stack_depth': r['max_depth'], 'budget': db,
+                               'rule': 'depth <= %s * %d (calibrated maximum of the family over '
+                                       'all n) + %d' % (DEPTH_FACTOR, CAL_DEPTH_FAM[t['family']],
+                                                        DEPTH_C)},
+                              {'task': {k: v for k, v in t.items() if k not in ('lean', 'limit')},
+                               'depth_check': True})
         if pres.skipped:
             exhaustive = False
             ctx.note('scaling: %d of %d programs not explored (time cap)'
@@ -752,6 +817,7 @@ def run(ctx):
         print('CAL_MAX_INFERS[%r] = %r' % (ctx.tier, obs_max_infers))
         print('CAL_STEPS64 = %r' % dict(sorted(obs64.items())))
         print('CAL_STEPS_FAM = %r' % dict(sorted(obsfam.items())))
+        print('CAL_DEPTH_FAM = %r' % dict(sorted(obsdepth.items())))
     ctx.coverage.update({
         'states': states, 'transitions': transitions, 'evaluations': transitions,
         'distinct_nontrivial': len(classes),
@@ -771,6 +837,13 @@ def run(ctx):
         'observed_max_steps_this_run': obs_max, 'observed_max_infers_this_run': obs_max_infers,
         'observed_steps64_this_run': obs64, 'observed_family_max_this_run': obsfam,
         'calibrated_family_max': CAL_STEPS_FAM,
+        'calibrated_family_stack_depth': CAL_DEPTH_FAM,
+        'observed_family_stack_depth_this_run': obsdepth,
+        'scaling_stack_depth_per_n': depth_series, 'depth_bounds_checked': ndepth,
+        'depth_rule': 'python stack depth above the query call, sampled at every %d-th counted '
+                      'entry, <= %s * calibrated family maximum + %d'
+                      % (DEPTH_SAMPLE_MASK + 1, DEPTH_FACTOR, DEPTH_C),
+        'observed_max_stack_depth_family_a': obs_depth_a[0],
         'scaling_max_steps_per_n': series,
         'worker_cpu_s': round(cpu[0], 1), 'total_steps': cpu[1], 'cost_per_level': level_cost,
         'scaling_programs': nscale, 'growth_inequalities_checked': ngrowth,
@@ -850,6 +923,16 @@ def replay(case):
         _scaling_verdicts(tables, lambda site, iid, detail, case_: out.append((site, iid, detail))
                           if ('|q%d:' % rank) in iid else None)
         return out
+    if case.get('depth_check'):
+        t = dict(case['task'])
+        r, status = _in_child(_replay_task, t)
+        if r is None:
+            return [('WorkerDied@program', t['id'], 'exit status %s' % status)]
+        db = depth_budget(t['family'])
+        if not r.get('watchdog') and db is not None and r['max_depth'] > db:
+            return [('stack-depth-over-budget@%s' % t['family'], t['id'] + '|depth',
+                     {'python_stack_depth': r['max_depth'], 'budget': db})]
+        return []
     t = dict(case['task'])
     if case.get('probe'):
         t['only'] = case['probe']
